@@ -48,7 +48,7 @@ def run(chk, scratch):
         d, w = worlds[seed]
         out = os.path.join(d, "out_%s_%s_%s" % (st, dt, annotated))
         pr = ["--polya_requirement", "never"] if (seed + len(st) + len(dt)) % 2 == 0 else []
-        r = pipeline.run(d, out, data_type=dt, threads=2, annotated=annotated, home=out + "_home",
+        r = pipeline.run(d, out, data_type=dt, threads=1 + (seed + len(st)) % 2, annotated=annotated, home=out + "_home",
                          extra=["--model_construction_strategy", st, "--report_novel_unspliced", "true"] + pr)
         return job, out, r
     novel_total = 0
